@@ -184,6 +184,10 @@ def drivePure : List String → Option String
     let name ← dec name
     let escaped ← dec escaped
     pure (enc (nsSerialize name escaped))
+  | ["wrapw", w, text] => do
+    let w ← w.toNat?
+    let text ← dec text
+    pure (encList ((wrapWords w (wordsOf text)).map (joinChar ' ')))
   | ["wrap", w, text] => do
     let w ← w.toNat?
     let text ← dec text
